@@ -74,8 +74,57 @@ fn judge(value: u32, order: u64, site: &str, acc: &mut Acc) {
     }
 }
 
+/// The identifier read through a reader that returns short counts must be what a plain cursor gives.
+fn short_read_values() -> Vec<u32> {
+    let mut v: Vec<u32> = vec![0, 1, 0x0012_3456, 0x00ab_cdef, 0x0100_0000, 0xffff_ffff, 0x8000_0001, 0x0047_4658, 0x5a5a_5a00];
+    for n in BUILTIN_CARS {
+        let b = n.as_bytes();
+        v.push(u32::from_le_bytes([b[0], b[1], b[2], 0]));
+        v.push(u32::from_le_bytes([b[0], b[1], b[2], 1]));
+    }
+    for n in ["ABC", "xfg", "XF1", "000"] {
+        let b = n.as_bytes();
+        v.push(u32::from_le_bytes([b[0], b[1], b[2], 0]));
+    }
+    v
+}
+
 pub fn sites(tier: Tier) -> Vec<Site> {
     let mut s = vec![];
+    {
+        let vals = std::sync::Arc::new(short_read_values());
+        let n = vals.len() as u64 * 4 * 8;
+        s.push(Site::new("short-reads", n,
+            "every built-in name, near-names and mod ids x identifier at stream offset 0..3 x every way a reader can deliver its 4 bytes in pieces (8 compositions): same value, same bytes consumed as from a plain cursor",
+            move |i, acc| {
+                acc.eval();
+                let value = vals[(i / 32) as usize];
+                let off = ((i / 8) % 4) as usize;
+                let mask = (i % 8) << off;
+                let mut data = vec![0x55u8; off];
+                data.extend_from_slice(&value.to_le_bytes());
+                data.extend_from_slice(&[0x66, 0x77]);
+                let plain = {
+                    let mut c = Cursor::new(&data[..]);
+                    c.set_position(off as u64);
+                    let r = Vehicle::read_le(&mut c);
+                    (format!("{r:?}"), c.position() as usize)
+                };
+                let chopped = guard(|| {
+                    let mut c = crate::choppy::Choppy::new(data.clone(), mask, 64);
+                    let _ = std::io::Seek::seek(&mut c, std::io::SeekFrom::Start(off as u64));
+                    let r = Vehicle::read_le(&mut c);
+                    (format!("{r:?}"), c.position())
+                });
+                let replay = json!({"site": "short-reads", "index": i, "bytes": crate::report::hex(&value.to_le_bytes()), "offset": off, "cuts": mask >> off});
+                match chopped {
+                    Err(p) => acc.violate(i, "C13|short-read|panic".into(), p, replay),
+                    Ok(c) if c == plain => { acc.class("short-read-agrees"); acc.nontrivial(); },
+                    Ok(c) => acc.violate(i, "C13|short-read|differs-from-plain-read".into(),
+                        format!("{} read in pieces (cuts {:03b}) gives {} leaving the reader at {}, in one piece {} at {}", crate::report::hex(&value.to_le_bytes()), mask >> off, c.0, c.1, plain.0, plain.1), replay),
+                }
+            }));
+    }
     if tier == Tier::Thorough {
         s.push(Site::new("all-u32", 1u64 << 32, "all 2^32 four-byte values", |i, acc| {
             let _ = guard(|| judge(i as u32, i, "all-u32", acc)).map_err(|p| acc.violate(i, "C13|panic".into(), p, json!({"site": "all-u32", "index": i})));
